@@ -57,25 +57,42 @@ func genOutsideCase(rng *fw.Rng) (*SnapCase, string) {
 	}
 	dists = append(dists, far*pix)
 	names = append(names, "far")
+	diagonal := rng.Chance(1, 4) // outside on two sides at once (the four corner regions of the plane)
+	side2 := rng.Intn(2)
 	outPoint := func() (P, string) {
 		di := rng.Intn(len(dists))
 		d := dists[di]
+		var p P
+		var name string
 		switch side {
 		case 0: // left: outside iff x < OX
-			if d == 0 {
-				d = 1
-			}
-			return P{gs.OX - d, alongY + rng.Int63n(5*pix)}, "left:" + names[di]
+			p, name = P{gs.OX - max(d, 1), alongY + rng.Int63n(5*pix)}, "left:"
 		case 1:
-			if d == 0 {
-				d = 1
-			}
-			return P{along + rng.Int63n(5*pix), gs.OY - d}, "bottom:" + names[di]
+			p, name = P{along + rng.Int63n(5*pix), gs.OY - max(d, 1)}, "bottom:"
 		case 2: // right: outside iff x >= MaxX
-			return P{gs.MaxX + d, alongY + rng.Int63n(5*pix)}, "right:" + names[di]
+			p, name = P{gs.MaxX + d, alongY + rng.Int63n(5*pix)}, "right:"
 		default:
-			return P{along + rng.Int63n(5*pix), gs.MaxY + d}, "top:" + names[di]
+			p, name = P{along + rng.Int63n(5*pix), gs.MaxY + d}, "top:"
 		}
+		if diagonal {
+			// also outside on the other axis, by an independently drawn distance
+			d2 := dists[rng.Intn(len(dists))]
+			ax := 1
+			if side == 1 || side == 3 {
+				ax = 0
+			}
+			lo, hi := gs.OY, gs.MaxY
+			if ax == 0 {
+				lo, hi = gs.OX, gs.MaxX
+			}
+			if side2 == 0 {
+				p[ax] = lo - max(d2, 1)
+			} else {
+				p[ax] = hi + d2
+			}
+			name = "corner-region:"
+		}
+		return p, name + names[di]
 	}
 	// inside polygon near that border: 3-6 vertices within a few pixels inside
 	inPoint := func() P {
